@@ -49,7 +49,7 @@ register("C01", "props.c01", ["ValidaProofs.C01"], 2500, 60000,
          "one case = one DSL-built leaf condition (class x constructor x arguments, mostly of the expected kind, 12% of any kind) "
          "filtered over one generated document; distinct = distinct (class, callable, outcome kind) triples seen, outcome kind in "
          "{some item true, callable false, callable error, pre-processor error}; non-trivial = the result is not constant over the document")
-register("C02", "props.c02", ["ValidaProofs.C02"], 1500, 40000,
+register("C02", "props.c02", ["ValidaProofs.C02", "ValidaProofs.C02Spec"], 1500, 40000,
          "60% condition trees (depth<=3 quick / <=5 thorough; value-kind mixed with key- or index-kind; null operands in every "
          "position) filtered over a generated document, 40% object histories (2-9 constructions over shared operands, by operator "
          "and by class call, null operands, same-operator nesting); distinct = (depth, kinds, operators, some-true) resp. "
